@@ -105,13 +105,13 @@ Phase1(canon, p, i, iss, path, rec) ==
                 iss2 == Issue(iss, r)
             IN Phase1(canon, p, i + 1, iss2, path \o <<95, 58>> \o IdOf(iss2, r), IF isNew THEN Append(rec, r) ELSE rec)
 \* second phase (5.4.5)
-RECURSIVE Phase2(_, _, _, _, _, _, _, _, _, _)
-Phase2(D, h1, canon, rec, i, iss, path, lim, depth, tox) ==
-  IF i > Len(rec) THEN [iss |-> iss, path |-> path, tox |-> tox]
+RECURSIVE Phase2(_, _, _, _, _, _, _, _, _, _, _)
+Phase2(D, h1, canon, rec, i, iss, path, lim, depth, tox, amb) ==
+  IF i > Len(rec) THEN [iss |-> iss, path |-> path, tox |-> tox, amb |-> amb]
   ELSE LET r == rec[i]
            res == HND(D, h1, canon, r, iss, lim, depth + 1)
        IN Phase2(D, h1, canon, rec, i + 1, res.iss,
-                 path \o <<95, 58>> \o IdOf(iss, r) \o <<60>> \o res.hash \o <<62>>, lim, depth, tox \/ res.tox)
+                 path \o <<95, 58>> \o IdOf(iss, r) \o <<60>> \o res.hash \o <<62>>, lim, depth, tox \/ res.tox, amb \/ res.amb)
 \* related-hash groups of identifier: sequence of [rh, list]
 RelatedPairs(D, h1, canon, id, issuer) ==
   LET qs == QuadsOf(D, id)
@@ -122,26 +122,29 @@ RelatedPairs(D, h1, canon, id, issuer) ==
                               LAMBDA x : x.rh # <<>>)
   IN Concat([i \in 1..Len(qs) |-> pairsOf(qs[i])])
 \* process groups in hash order (step 5), threading issuer and data
-RECURSIVE Groups(_, _, _, _, _, _, _, _, _, _, _)
-Groups(D, h1, canon, pairs, hashes, gi, issuer, data, lim, depth, tox) ==
-  IF gi > Len(hashes) THEN [hash |-> Hash(data), iss |-> issuer, tox |-> tox]
+RECURSIVE Groups(_, _, _, _, _, _, _, _, _, _, _, _)
+Groups(D, h1, canon, pairs, hashes, gi, issuer, data, lim, depth, tox, amb) ==
+  IF gi > Len(hashes) THEN [hash |-> Hash(data), iss |-> issuer, tox |-> tox, amb |-> amb]
   ELSE LET rh == hashes[gi]
            list == SelectSeq(pairs, LAMBDA x : x.rh = rh)
            n == Len(list)
            cand == { LET p == [i \in 1..n |-> list[f[i]].b]
                          a == Phase1(canon, p, 1, issuer, <<>>, <<>>)
-                         b == Phase2(D, h1, canon, a.rec, 1, a.iss, a.path, lim, depth, FALSE)
+                         b == Phase2(D, h1, canon, a.rec, 1, a.iss, a.path, lim, depth, FALSE, FALSE)
                      IN b : f \in IF n > 7 THEN {} ELSE Perms(n) }
            \* a list beyond the model's own reach (> 7) is toxic for every setting used; no result is computed for it
-           best == IF cand = {} THEN [iss |-> issuer, path |-> <<>>, tox |-> TRUE]
+           best == IF cand = {} THEN [iss |-> issuer, path |-> <<>>, tox |-> TRUE, amb |-> FALSE]
                    ELSE CHOOSE c \in cand : \A d \in cand : ~Less(d.path, c.path)
            anyTox == \E c \in cand : c.tox
+           \* 5.4.6 keeps the FIRST permutation with the least path: when two permutations tie on the path and leave different issuers,
+           \* the result depends on the order in which permutations are visited, which the specification leaves open
+           ambHere == \E c, d \in cand : c.path = best.path /\ d.path = best.path /\ c.iss.order # d.iss.order
        IN Groups(D, h1, canon, pairs, hashes, gi + 1, best.iss, data \o rh \o best.path, lim, depth,
-                 tox \/ anyTox \/ n > lim.pl \/ cand = {})
+                 tox \/ anyTox \/ n > lim.pl \/ cand = {}, amb \/ ambHere \/ \E c \in cand : c.amb)
 HND(D, h1, canon, id, issuer, lim, depth) ==
   LET pairs == RelatedPairs(D, h1, canon, id, issuer)
       hashes == SetToSortedSeq({pairs[i].rh : i \in 1..Len(pairs)})
-  IN Groups(D, h1, canon, pairs, hashes, 1, issuer, <<>>, lim, depth, 2 * depth > lim.dn * lim.nb)
+  IN Groups(D, h1, canon, pairs, hashes, 1, issuer, <<>>, lim, depth, 2 * depth > lim.dn * lim.nb, FALSE)
 
 \* step 4 and 5 over first-degree hash groups, in hash order
 RECURSIVE IssueAll(_, _, _)
@@ -157,23 +160,24 @@ RECURSIVE SortByHash(_)
 SortByHash(S) == IF S = {} THEN <<>>
                  ELSE LET m == CHOOSE x \in S : \A y \in S : ~Less(y.hash, x.hash) IN <<m>> \o SortByHash(S \ {m})
 RECURSIVE Step5(_, _, _, _, _, _, _, _)
-\* returns [canon, tox, tie]; tie = two results of one group had the same hash (step 5.3 leaves their order open)
+\* returns [canon, tox, tie, amb]; tie = two results of one group had the same hash (step 5.3 leaves their order open);
+\* amb = somewhere two permutations tied on the least path with different issuers (5.4.6 leaves the winner open)
 Step5(D, h1, hs, i, canon, skip521, lim, acc) ==
-  IF i > Len(hs) THEN [canon |-> canon, tox |-> acc.tox, tie |-> acc.tie]
+  IF i > Len(hs) THEN [canon |-> canon, tox |-> acc.tox, tie |-> acc.tie, amb |-> acc.amb]
   ELSE LET grp == {b \in BN(D) : h1[b] = hs[i]} IN
        IF Cardinality(grp) = 1 THEN Step5(D, h1, hs, i + 1, canon, skip521, lim, acc)
        ELSE LET todo == IF skip521 THEN {b \in grp : ~Has(canon, b)} ELSE grp
-                resSet == { LET r == HND(D, h1, canon, n, Issue(NewIssuer(BPre), n), lim, 0) IN [hash |-> r.hash, iss |-> r.iss, n |-> n, tox |-> r.tox] : n \in todo }
+                resSet == { LET r == HND(D, h1, canon, n, Issue(NewIssuer(BPre), n), lim, 0) IN [hash |-> r.hash, iss |-> r.iss, n |-> n, tox |-> r.tox, amb |-> r.amb] : n \in todo }
                 resSeq == SortByHash(resSet)
                 tie == \E x, y \in resSet : x.n # y.n /\ x.hash = y.hash
             IN Step5(D, h1, hs, i + 1, IssueResults(canon, resSeq, 1), skip521, lim,
-                     [tox |-> acc.tox \/ \E x \in resSet : x.tox, tie |-> acc.tie \/ tie])
+                     [tox |-> acc.tox \/ \E x \in resSet : x.tox, tie |-> acc.tie \/ tie, amb |-> acc.amb \/ \E x \in resSet : x.amb])
 NoLimit(D) == [pl |-> 99, dn |-> 99, nb |-> Cardinality(BN(D))]
 CanonicalRun(D, skip521, lim) ==
   LET h1 == [b \in BN(D) |-> H1(D, b)]
       hs == SetToSortedSeq({h1[b] : b \in BN(D)})
       c4 == Step4(D, h1, hs, 1, NewIssuer(C14N))
-  IN Step5(D, h1, hs, 1, c4, skip521, lim, [tox |-> FALSE, tie |-> FALSE])
+  IN Step5(D, h1, hs, 1, c4, skip521, lim, [tox |-> FALSE, tie |-> FALSE, amb |-> FALSE])
 Canonical(D, skip521) == CanonicalRun(D, skip521, NoLimit(D)).canon
 Relabel(t, canon) == IF IsB(t) THEN [k |-> "b", v |-> IdOf(canon, t.v)] ELSE t
 DocOf(D, canon) ==
@@ -183,4 +187,57 @@ CanonDoc(D, skip521) ==
   LET canon == Canonical(D, skip521)
       lines == { Line(<<Relabel(D[i][1], canon), D[i][2], Relabel(D[i][3], canon), Relabel(D[i][4], canon)>>) : i \in 1..Len(D) }
   IN Concat(SetToSortedSeq(lines))
+\* ---------- every outcome the W3C text allows ----------
+\* Two places of the algorithm leave a choice to the implementation: 5.4.6 keeps the FIRST permutation with the least path (two permutations
+\* may tie on the path and leave different issuers), and 5.3 takes the results of a group "sorted by hash" (two results may have the same
+\* hash).  When the tied alternatives are automorphic images of each other every choice gives the same document; they need not be: the
+\* related hash of 4.7.3 holds position, predicate and identifier - not the graph name of the quad -, so nodes that differ only in WHICH
+\* graph links them tie (MC_Rdfc10: Twins).  The operators below compute the SET of possible results; the deterministic operators above
+\* compute one of them.
+RECURSIVE HNDS(_, _, _, _, _, _, _)
+RECURSIVE Phase2S(_, _, _, _, _, _, _, _, _, _)
+Phase2S(D, h1, canon, rec, i, iss, path, lim, depth, tox) ==
+  IF i > Len(rec) THEN { [iss |-> iss, path |-> path, tox |-> tox] }
+  ELSE LET r == rec[i] IN
+       UNION { Phase2S(D, h1, canon, rec, i + 1, res.iss, path \o <<95, 58>> \o IdOf(iss, r) \o <<60>> \o res.hash \o <<62>>, lim, depth, tox \/ res.tox)
+               : res \in HNDS(D, h1, canon, r, iss, lim, depth + 1) }
+RECURSIVE GroupsS(_, _, _, _, _, _, _, _, _, _, _)
+GroupsS(D, h1, canon, pairs, hashes, gi, issuer, data, lim, depth, tox) ==
+  IF gi > Len(hashes) THEN { [hash |-> Hash(data), iss |-> issuer, tox |-> tox] }
+  ELSE LET rh == hashes[gi]
+           list == SelectSeq(pairs, LAMBDA x : x.rh = rh)
+           n == Len(list)
+           cand == UNION { LET p == [i \in 1..n |-> list[f[i]].b]
+                               a == Phase1(canon, p, 1, issuer, <<>>, <<>>)
+                           IN Phase2S(D, h1, canon, a.rec, 1, a.iss, a.path, lim, depth, FALSE) : f \in IF n > 7 THEN {} ELSE Perms(n) }
+           least == { c \in cand : \A d \in cand : ~Less(d.path, c.path) }
+           anyTox == \E c \in cand : c.tox
+           t2 == tox \/ anyTox \/ n > lim.pl \/ cand = {}
+       IN IF cand = {} THEN GroupsS(D, h1, canon, pairs, hashes, gi + 1, issuer, data \o rh, lim, depth, TRUE)
+          ELSE UNION { GroupsS(D, h1, canon, pairs, hashes, gi + 1, c.iss, data \o rh \o c.path, lim, depth, t2) : c \in least }
+HNDS(D, h1, canon, id, issuer, lim, depth) ==
+  LET pairs == RelatedPairs(D, h1, canon, id, issuer)
+      hashes == SetToSortedSeq({pairs[i].rh : i \in 1..Len(pairs)})
+  IN GroupsS(D, h1, canon, pairs, hashes, 1, issuer, <<>>, lim, depth, 2 * depth > lim.dn * lim.nb)
+\* step 5 with every choice of a result per node and every order of the results that is sorted by hash
+RECURSIVE Step5S(_, _, _, _, _, _)
+Step5S(D, h1, hs, i, canon, lim) ==
+  IF i > Len(hs) THEN { canon }
+  ELSE LET grp == {b \in BN(D) : h1[b] = hs[i]} IN
+       IF Cardinality(grp) = 1 THEN Step5S(D, h1, hs, i + 1, canon, lim)
+       ELSE LET todo == {b \in grp : ~Has(canon, b)}
+                resOf == [n \in todo |-> HNDS(D, h1, canon, n, Issue(NewIssuer(BPre), n), lim, 0)]
+                picks == { c \in [todo -> UNION {resOf[n] : n \in todo}] : \A n \in todo : c[n] \in resOf[n] }
+                orders(c) == { sq \in PermSeqs(todo) : \A a, b \in 1..Len(sq) : a < b => ~Less(c[sq[b]].hash, c[sq[a]].hash) }
+            IN UNION { UNION { Step5S(D, h1, hs, i + 1, IssueResults(canon, [k \in 1..Len(sq) |-> c[sq[k]]], 1), lim) : sq \in orders(c) } : c \in picks }
+OutcomeDocs(D) ==
+  LET h1 == [b \in BN(D) |-> H1(D, b)]
+      hs == SetToSortedSeq({h1[b] : b \in BN(D)})
+      c4 == Step4(D, h1, hs, 1, NewIssuer(C14N))
+  IN { DocOf(D, c) : c \in Step5S(D, h1, hs, 1, c4, NoLimit(D)) }
+OutcomeCanons(D) ==
+  LET h1 == [b \in BN(D) |-> H1(D, b)]
+      hs == SetToSortedSeq({h1[b] : b \in BN(D)})
+      c4 == Step4(D, h1, hs, 1, NewIssuer(C14N))
+  IN Step5S(D, h1, hs, 1, c4, NoLimit(D))
 ====
